@@ -11,6 +11,10 @@ namespace Bytes
 
 def ofString (s : String) : Bytes := s.toUTF8.toList.map (·.toNat)
 
+/-- bytes of an ASCII literal.  Unlike `ofString` (which goes through `String.toUTF8`) this REDUCES in the
+    kernel, so `decide` / `rfl` / `simp` can compute with it: use it for every literal inside Model files. -/
+def ofAscii (s : String) : Bytes := s.toList.map (fun c => c.toNat)
+
 def toString (b : Bytes) : String :=
   String.fromUTF8! (ByteArray.mk (b.map (fun n => UInt8.ofNat n)).toArray)
 
